@@ -395,6 +395,12 @@ class FnView:
                             out.add(Origin("const", o["val"]))
                         elif "str" in o:
                             out.add(Origin("const", o["str"]))
+            t = bb.get("t")
+            if t and t["k"] == "call":
+                # const fn evaluated in the promoted body, e.g. RangeInclusive::new(a, b)
+                for o in t["args"]:
+                    if o["k"] == "const" and "val" in o:
+                        out.add(Origin("const", o["val"]))
         return out
 
     # -- provenance ---------------------------------------------------------------------
